@@ -219,7 +219,10 @@ class MPSBackendImpl:
     def init_dark_qubits(self) -> None:
         # has_state_preparation_error
         if self.pulser_data.state_prep_error > 0.0:
-            bad_atoms = self.pulser_data.bad_atoms
+            # bad_atoms is in register order, the filter is used in site order
+            bad_atoms = optimat.permute_tuple(
+                self.pulser_data.bad_atoms, self.qubit_permutation
+            )
             self.well_prepared_qubits_filter = torch.logical_not(torch.tensor(bad_atoms))
         else:
             self.well_prepared_qubits_filter = None
